@@ -6,13 +6,6 @@ import IastModel.Lemmas.ErSrcR
 namespace IastModel
 open Node
 
-def noOptK : Node → Bool
-  | .optChain .. => false
-  | _ => true
-
-/-- the tree has no optional chain -/
-def noOpt (n : Node) : Bool := Node.all noOptK n
-
 theorem noOpt_eq (n : Node) : noOpt n = (noOptK n && n.kids.all noOpt) := by
   unfold noOpt; rw [Node.all_eq]
 
